@@ -1,7 +1,13 @@
 /-
 Proofs behind Props/C02.lean (credentials obey the TLS and mechanism policy).
+
+The work is done in ConnC02Base (frame lemmas), ConnC02Inv (the invariant `Inv`), ConnC02Auth (`_auth`,
+`_handle_features`), ConnC02Handlers / ConnC02Run (stanza handlers and dispatch), ConnC02Loop (parser events,
+timers) and ConnC02Step (write loop, `xmpp_run_once`, API calls, histories): every record of every history
+satisfies `RecOk` (`all_records`).
 -/
 import Strophe.Model.ConnOps
+import Strophe.Lemmas.ConnC02Step
 
 namespace Strophe.Lemmas.ConnC02
 open Strophe Strophe.Conn
@@ -9,44 +15,79 @@ open Strophe Strophe.Conn
 /-- mechanisms stronger than PLAIN that the client supports without further configuration -/
 def strongerMask : Nat := scramMaskAll ||| Gen.saslMaskDigestmd5
 
+/-- with MANDATORY_TLS set when an element is written, no authentication data leaves outside TLS -/
 theorem mandatory_tls_gate (jid pass : Option Bytes) (cert : Bool) (flags : Nat) (ops : List Op)
     (hu : userOps ops) :
     ∀ r ∈ (exec (fresh jid pass cert flags) ops).tx,
-      r.snap.mandatory = true → r.item.authBearing = true → r.sec = true := by
-  sorry
+      r.mandatoryW = true → r.item.authBearing = true → r.sec = true :=
+  fun r hr hm hb => (all_records jid pass cert flags ops hu r hr).1 (.inl hm) hb
+
+/-- the same with the flag as it was when the element was queued -/
+theorem mandatory_tls_gate_snap (jid pass : Option Bytes) (cert : Bool) (flags : Nat) (ops : List Op)
+    (hu : userOps ops) :
+    ∀ r ∈ (exec (fresh jid pass cert flags) ops).tx,
+      r.snap.mandatory = true → r.item.authBearing = true → r.sec = true :=
+  fun r hr hm hb => (all_records jid pass cert flags ops hu r hr).1 (.inr hm) hb
 
 theorem never_starttls_when_disabled (jid pass : Option Bytes) (cert : Bool) (flags : Nat)
     (ops : List Op) (hu : userOps ops) :
     ∀ r ∈ (exec (fresh jid pass cert flags) ops).tx,
-      r.item = .starttls → r.snap.tlsDisabled = false := by
-  sorry
+      r.item = .starttls → r.snap.tlsDisabled = false ∧ r.tlsDisabledW = false :=
+  fun r hr hi => (all_records jid pass cert flags ops hu r hr).2.1 hi
 
 theorem plain_only_if_nothing_stronger (jid pass : Option Bytes) (cert : Bool) (flags : Nat)
     (ops : List Op) (hu : userOps ops) :
     ∀ r ∈ (exec (fresh jid pass cert flags) ops).tx, ∀ t, r.item = .auth (b "PLAIN") t →
       r.snap.g.offeredMechs &&& strongerMask = 0 ∧
-      (r.snap.cert = true → r.snap.g.offeredMechs &&& Gen.saslMaskExternal = 0) := by
-  sorry
+      (r.snap.cert = true → r.snap.g.offeredMechs &&& Gen.saslMaskExternal = 0) :=
+  fun r hr t hi => (all_records jid pass cert flags ops hu r hr).2.2.2 t hi
 
 theorem legacy_only_if_enabled (jid pass : Option Bytes) (cert : Bool) (flags : Nat)
     (ops : List Op) (hu : userOps ops) :
     ∀ r ∈ (exec (fresh jid pass cert flags) ops).tx, ∀ u res p, r.item = .legacy u res p →
-      r.snap.authLegacy = true ∧ r.snap.isClient = true := by
-  sorry
+      r.snap.authLegacy = true ∧ r.snap.isClient = true ∧ r.legacyW = true :=
+  fun r hr u res p hi => (all_records jid pass cert flags ops hu r hr).2.2.1 u res p hi
 
 /-- the flag words the API refuses: DISABLE_TLS together with MANDATORY_TLS, LEGACY_SSL or TRUST_TLS -/
 def conflict (f : Nat) : Bool :=
   f &&& Gen.flagDisableTls ≠ 0 &&
     (f &&& Gen.flagMandatoryTls ≠ 0 || f &&& Gen.flagLegacySsl ≠ 0 || f &&& Gen.flagTrustTls ≠ 0)
 
+theorem flags_fin : ∀ f : Fin 256,
+    (f.val &&& (knownFlags ^^^ 0xFFFFFFFFFFFFFFFF) = 0) ∧
+    ((if f.val &&& Gen.flagDisableTls ≠ 0 then Gen.flagDisableTls else 0) |||
+     (if f.val &&& Gen.flagMandatoryTls ≠ 0 then Gen.flagMandatoryTls else 0) |||
+     (if f.val &&& Gen.flagLegacySsl ≠ 0 then Gen.flagLegacySsl else 0) |||
+     (if f.val &&& Gen.flagTrustTls ≠ 0 then Gen.flagTrustTls else 0) |||
+     (if f.val &&& Gen.flagDisableSm ≠ 0 then Gen.flagDisableSm else 0) |||
+     (if f.val &&& Gen.flagEnableCompression ≠ 0 then Gen.flagEnableCompression else 0) |||
+     (if f.val &&& Gen.flagCompressionDontReset ≠ 0 then Gen.flagCompressionDontReset else 0) |||
+     (if f.val &&& Gen.flagLegacyAuth ≠ 0 then Gen.flagLegacyAuth else 0)) = f.val := by
+  decide +kernel
+
+theorem getFlags_applyFlags (c : Conn) (f : Nat) (hf : f < 256) : getFlags (applyFlags c f) = f := by
+  have h := (flags_fin ⟨f, hf⟩).2
+  simp only [] at h
+  simpa [getFlags, applyFlags] using h
+
 /-- complete table of `xmpp_conn_set_flags` over all 256 flag words and all connection states -/
 theorem set_flags_table (c : Conn) (f : Nat) (hf : f < 256) :
     ((setFlags c f).2 = 0 ↔ (c.state = .disconnected ∧ conflict f = false)) ∧
     ((setFlags c f).2 = 0 → getFlags (setFlags c f).1 = f) ∧
     ((setFlags c f).2 ≠ 0 → (setFlags c f).1 = c) := by
-  sorry
+  have hk := (flags_fin ⟨f, hf⟩).1
+  simp only [] at hk
+  have e : xmppEInvOp ≠ 0 := by decide
+  have hcf : conflict f = (f &&& Gen.flagDisableTls ≠ 0 &&
+      (f &&& Gen.flagMandatoryTls ≠ 0 || f &&& Gen.flagLegacySsl ≠ 0 || f &&& Gen.flagTrustTls ≠ 0)) := rfl
+  rw [setFlags_eq, ← hcf]
+  by_cases hs : c.state = .disconnected
+  · by_cases hc : conflict f = true
+    · simp [hs, hc, e]
+    · simp [hs, hc, hk, getFlags_applyFlags c f hf]
+  · simp [hs, e]
 
 theorem tls_failed_never_secured (c : Conn) (h : c.tlsFailed = true) : isSecured c = false := by
-  sorry
+  simp [isSecured, h]
 
 end Strophe.Lemmas.ConnC02
